@@ -755,17 +755,31 @@ func (r *realm) registerMetaProcedure(procedure wamp.URI, f func(*wamp.Invocatio
 
 func (r *realm) metaProcedureHandler() {
 	defer close(r.metaDone)
+	// send gives a response to the meta session. When the realm closes, the
+	// meta session is told to end and stops reading: a response still on its
+	// way then must not block this handler, which the realm waits for.
+	metaSessDone := r.metaSess.RecvDone()
+	send := func(rsp wamp.Message) bool {
+		select {
+		case r.metaPeer.Send() <- rsp:
+			return true
+		case <-metaSessDone:
+			return false
+		}
+	}
 	var rsp wamp.Message
 	for msg := range r.metaPeer.Recv() {
 		switch msg := msg.(type) {
 		case *wamp.Invocation:
 			metaProcHandler, ok := r.metaProcMap[msg.Registration]
 			if !ok {
-				r.metaPeer.Send() <- &wamp.Error{
+				if !send(&wamp.Error{
 					Type:    msg.MessageType(),
 					Request: msg.Request,
 					Details: wamp.Dict{},
 					Error:   wamp.ErrNoSuchProcedure,
+				}) {
+					return
 				}
 				continue
 			}
@@ -778,7 +792,9 @@ func (r *realm) metaProcedureHandler() {
 		default:
 			r.log.Println("Meta procedure received unexpected", msg.MessageType())
 		}
-		r.metaPeer.Send() <- rsp
+		if !send(rsp) {
+			return
+		}
 	}
 }
 
